@@ -120,6 +120,13 @@ func (q *qLogFile) seekTS(
 		return 0, 0, err
 	}
 
+	if fileInfo.Size() == 0 {
+		// There is nothing to probe in an empty file.  Report the timestamp as
+		// too early so that the caller continues with the older files instead
+		// of failing on io.EOF from the first probe.
+		return 0, 0, errTSTooEarly
+	}
+
 	// Define the search scope.
 
 	// Start of the search interval (position in the file).
